@@ -41,6 +41,7 @@ pub mod ctl {
     ///   "N"  notify         obj=condvar a=number of controlled waiters released
     ///   "S"  thread start
     ///   "J"  join_all
+    ///   "I"  wait_idle
     ///   "E"  thread exit (logged inside the thread's last step; not for thread 0)
     ///   "X"  abort (deadlock / step limit)   text=reason
     ///   anything else: harness events logged through `yield_event` / `note`
@@ -89,6 +90,7 @@ pub mod ctl {
         Any,
         Lock(usize),
         Join, // schedulable once every other thread has finished
+        Idle, // schedulable when no other thread is schedulable (all finished or blocked)
     }
 
     #[derive(Clone, Copy, PartialEq, Debug)]
@@ -141,6 +143,15 @@ pub mod ctl {
     }
 
     impl Ctl {
+        fn enabled0(&self, t: usize) -> bool {
+            match self.th[t] {
+                St::Ready(Next::Any) | St::Ready(Next::Idle) => true,
+                St::Ready(Next::Lock(m)) => !self.owner.contains_key(&m),
+                St::Ready(Next::Join) => (0..self.th.len()).all(|u| u == t || self.th[u] == St::Finished),
+                _ => false,
+            }
+        }
+
         fn log(&mut self, tid: usize, kind: &'static str, obj: usize, a: usize, b: usize, text: String) {
             let step = self.step;
             self.rep.events.push(Event { step, tid, kind, obj, a, b, text });
@@ -151,6 +162,7 @@ pub mod ctl {
                 St::Ready(Next::Any) => true,
                 St::Ready(Next::Lock(m)) => !self.owner.contains_key(&m),
                 St::Ready(Next::Join) => (0..self.th.len()).all(|u| u == t || self.th[u] == St::Finished),
+                St::Ready(Next::Idle) => (0..self.th.len()).all(|u| u == t || !self.enabled0(u)),
                 _ => false,
             }
         }
@@ -365,6 +377,18 @@ pub mod ctl {
             let mut g = lock_ctl();
             if let Some(c) = g.as_mut() {
                 c.log(me, "J", 0, 0, 0, String::new());
+            }
+        }
+    }
+
+    /// A yield point that is schedulable only when no other registered thread is schedulable (every
+    /// other thread has finished or is blocked); logs an "I" event.
+    pub fn wait_idle() {
+        if let Some(me) = tid() {
+            yield_with(me, Next::Idle);
+            let mut g = lock_ctl();
+            if let Some(c) = g.as_mut() {
+                c.log(me, "I", 0, 0, 0, String::new());
             }
         }
     }
